@@ -1,45 +1,1 @@
-/-
-  C11 — a patch stream is the sum of its sections; surrounding text is ignored (parser level).
--/
-import PatchModel.Spec.Inert
-import PatchModel.Spec.Diff
-namespace PatchModel.C11
-open PatchModel
-
-/-- an inert line is skipped by the header scan: nothing changes but the line counter (and the "what did the previous
-    line look like" marker is reset), whatever the state of the scan — outside a git section -/
-theorem inert_step (st : HState) (l : Bytes) (strip : Int) (hi : inertLine l = true) (hg : st.isGit = false) :
-    headerStep st l strip = .ok ({ st with lines := st.lines + 1, thisLooks := .unknown }, true) := by
-  sorry
-
-/-- the same inside a git section for lines that are no extended header either -/
-theorem inert_step_git (st : HState) (l : Bytes) (strip : Int) (hi : inertGitLine l = true) (hg : st.isGit = true) :
-    headerStep st l strip = .ok ({ st with lines := st.lines + 1, thisLooks := .unknown }, true) := by
-  sorry
-
-/-- the header loop over a block of inert lines followed by anything: same as the loop started after the block, with the
-    line counter advanced -/
-theorem headerLoop_filler (strip : Int) (filler : List Line) (hin : ∀ l ∈ filler, inertLine l.content = true)
-    (hterm : ∀ l ∈ filler, l.newline ≠ .none)
-    (st : HState) (hg : st.isGit = false) (hflags : st.par.s.eof = false ∧ st.par.s.bad = false)
-    (rest : List Line) (hrest : st.par.s.rest = filler ++ rest) (fuel : Nat) :
-    headerLoop strip (fuel + filler.length) st =
-      headerLoop strip fuel { st with par := { s := { st.par.s with rest := rest }, lineNo := st.par.lineNo + filler.length },
-                                      lines := st.lines + filler.length,
-                                      thisLooks := if filler = [] then st.thisLooks else .unknown } := by
-  sorry
-
-/-- text that is only filler is "only garbage": the scan finds no format, so the section loop stops there
-    ("Hmm... Ignoring the trailing garbage") without producing a patch -/
-theorem filler_only_unknown (strip : Int) (filler : List Line) (hin : ∀ l ∈ filler, inertLine l.content = true)
-    (hterm : ∀ l ∈ filler, l.newline ≠ .none) (lineNo : Nat) :
-    ∃ body info par', parseHeader { s := { rest := filler }, lineNo := lineNo } {} strip = .ok (body, {}, info, par') := by
-  sorry
-
-/-- trailing filler after the last section does not change what the section loop returns -/
-theorem parseAll_trailing_filler (strip : Int) (filler : List Line) (hin : ∀ l ∈ filler, inertLine l.content = true)
-    (hterm : ∀ l ∈ filler, l.newline ≠ .none) (acc : List Patch) (lineNo : Nat) (fuel : Nat) :
-    ∃ par', parseAll .unknown strip (fuel + 1) { s := { rest := filler }, lineNo := lineNo } acc = .ok (acc, par', false) := by
-  sorry
-
-end PatchModel.C11
+import PatchModel.Props.C11
